@@ -10,6 +10,7 @@ import (
 	"os/exec"
 	"path/filepath"
 	"strconv"
+	"strings"
 	"sync"
 	"sync/atomic"
 	"syscall"
@@ -122,6 +123,33 @@ func c06inputs(c *Ctx) []c06input {
 						add("hashenv-grid-unprotected", w3.Bytes())
 					}
 				}
+			}
+		}
+	}
+	// every registered header label x a zoo of plain and structured values, in both buckets and inside a message
+	{
+		hz := gen.KeyValueZoo(r)
+		for _, str := range []string{";", ";charset=utf-8", "/", "a/", "/b", " ", "a/b;c=d", "a/b/c", "\x00/\x00", "é/ü", strings.Repeat("a/", 40), strings.Repeat("x", 5000) + "/y"} {
+			hz = append(hz, refcbor.NTstr(str))
+		}
+		hz = append(hz, &Node{Major: refcbor.Tstr, Str: []byte{0xff, 0xfe, '/', 'a'}}) // invalid UTF-8
+		for _, a := range []int64{-16, -15, -14, -43, -44, -18, -45, 0, 1, 99, -65536, 1 << 40} {
+			hz = append(hz, refcbor.NArr(refcbor.NInt(a), refcbor.NBstr(r.Bytes(32))), refcbor.NArr(refcbor.NInt(a), refcbor.NBstr([]byte{})), refcbor.NArr(refcbor.NInt(a)))
+		}
+		hz = append(hz, refcbor.NArr(refcbor.NTstr("sha-256"), refcbor.NBstr(r.Bytes(32))), refcbor.NArr(refcbor.NBstr(r.Bytes(10)), refcbor.NBstr(r.Bytes(10))), refcbor.NArr(refcbor.NArr(), refcbor.NArr()))
+		labels := []int64{258, 259, 260, 256, 257, 261, -1, -65537}
+		for l := int64(0); l <= 40; l++ {
+			labels = append(labels, l)
+		}
+		for _, l := range labels {
+			for _, v := range hz {
+				u := refcbor.NMap(refcbor.NInt(l), v)
+				add("label-value-grid/unprotected", refcbor.Encode(u))
+				add("label-value-grid/protected", refcbor.Encode(refcbor.NBstr(refcbor.Encode(u))))
+				wm := &gen.WSign1{L: gen.WLayer{ProtMap: refcbor.NMap(refcbor.NInt(1), refcbor.NInt(-7), refcbor.NInt(l), v), Unprot: refcbor.NMap(refcbor.NInt(l), v)}, Payload: []byte("p"), Sig: []byte{1, 2, 3}, Tagged: true}
+				add("label-value-grid/sign1", wm.Bytes())
+				wm2 := &gen.WSign1{L: gen.WLayer{ProtMap: refcbor.NMap(refcbor.NInt(1), refcbor.NInt(-7), refcbor.NInt(258), refcbor.NInt(-16), refcbor.NInt(l), v)}, Payload: make([]byte, 32), Sig: []byte{1, 2, 3}, Tagged: true}
+				add("label-value-grid/hash-envelope", wm2.Bytes())
 			}
 		}
 	}
